@@ -378,6 +378,92 @@ theorem SegsFrom.of_segs_eq {img : Bytes} {o o1 : Obj} (h : SegsFrom img o) (e :
   have : o1.segs[j] = o.segs[j] := by simp only [e]
   rw [this]; exact h.segs j hj'
 
+/-! ### a segment data request keeps `SegsFrom` -/
+
+/-- the three things `segments[j]->get_data()` can do to a segment -/
+theorem segGetData_cases (c : Cls) (tr : List Trans) (ls : LoadSt) (g : Seg) :
+    (segGetData c tr ls g).2 = g ∨
+    ((segGetData c tr ls g).2 = { g with data := none } ∧ g.isLoaded = false ∧
+      segOutcome c tr ls.st g.stype g.filesz g.offset g.streamSize = some none) ∨
+    (∃ d, (segGetData c tr ls g).2 = { g with data := some (d ++ [0]), isLoaded := true }) := by
+  rw [segGetData_eq_ls]
+  cases hl : g.isLoaded
+  · simp only [Bool.not_false, if_true]
+    rw [segLoadData_snd]
+    cases ho : segOutcome c tr ls.st g.stype g.filesz g.offset g.streamSize with
+    | none => exact Or.inl (by simp only [segApply, hl])
+    | some x =>
+      cases x with
+      | none => exact Or.inr (Or.inl ⟨by simp only [segApply, hl], by first | rfl | trivial, by first | rfl | trivial⟩)
+      | some d => exact Or.inr (Or.inr ⟨d, by simp only [segApply, hl]⟩)
+  · simp only [Bool.not_true, Bool.false_eq_true, if_false]
+    exact Or.inl (by first | rfl | trivial)
+
+/-- whether `load_data` is skipped depends on the type and the file size only -/
+theorem segOutcome_skip_indep (c : Cls) (tr : List Trans) (st st' : IStream) (ty : BitVec 32)
+    (fsz off ss : BitVec 64) (h : segOutcome c tr st ty fsz off ss = some none) :
+    segOutcome c tr st' ty fsz off ss ≠ none := by
+  unfold segOutcome at h ⊢
+  cases c <;> simp only [] at h ⊢ <;>
+  (split at h
+   · cases h
+   · rename_i hs
+     rw [if_neg hs]
+     (repeat' split) <;> exact fun e => by cases e)
+
+theorem segsFrom_set (img : Bytes) (o : Obj) (hL : LoadedFrom img o) (hS : SegsFrom img o) (j : Nat)
+    (hj : j < o.segs.length) :
+    SegsFrom img { o with segs := o.segs.set j (segGetData o.cls o.trans { st := o.stream } o.segs[j]).2,
+                          stream := (segGetData o.cls o.trans { st := o.stream } o.segs[j]).1.st } := by
+  obtain ⟨hspec, hinv⟩ := hS.segs j hj
+  have hs0 : StOk o.trans img o.stream.kind { st := o.stream } := ⟨hL.sdata, rfl, fun a ha => by cases ha⟩
+  have hinv' : LoadedSeg o.trans o.segs[j] img := by rw [hL.trans]; exact hinv
+  obtain ⟨_, h2'', _⟩ := segGetData_spec o.cls o.trans _ o.segs[j] img _ hs0 hinv'
+  have h2 : LoadedSeg [] (segGetData o.cls o.trans { st := o.stream } o.segs[j]).2 img := by
+    rw [hL.trans] at h2'' ⊢; exact h2''
+  refine ⟨by simp [hS.nsegs], ?_⟩
+  intro j' hj'
+  simp only [List.length_set] at hj'
+  by_cases hjj : j = j'
+  · subst hjj
+    simp only [List.getElem_set_self]
+    refine ⟨?_, h2⟩
+    obtain ⟨s0, s1, s2, s3, s4, s5, s6, s7, s8, s9, sd⟩ := hspec
+    have hd0 := sd { st := o.stream } hL.sdata
+    rw [← hL.cls, ← hL.trans] at hd0
+    rcases segGetData_cases o.cls o.trans { st := o.stream } o.segs[j] with e | ⟨e, hl, ho⟩ | ⟨d, e⟩
+    · rw [e]; exact ⟨s0, s1, s2, s3, s4, s5, s6, s7, s8, s9, sd⟩
+    · rw [e] at hd0 ⊢
+      refine ⟨s0, s1, s2, s3, s4, s5, s6, s7, s8, s9, ?_⟩
+      intro ls hls
+      have hd1 := sd ls hls
+      -- a second request on the data-less segment does what a first request does
+      have key : (segGetData (clsOf img) [] ls { o.segs[j] with data := none }).2.data =
+          (segGetData (clsOf img) [] ls o.segs[j]).2.data := by
+        rw [segGetData_eq_ls, segGetData_eq_ls]
+        simp only [hl, Bool.not_false, if_true]
+        rw [segLoadData_snd, segLoadData_snd]
+        simp only []
+        have hne := segOutcome_skip_indep o.cls o.trans o.stream ls.st _ _ _ _ ho
+        rw [hL.cls, hL.trans] at hne
+        cases hx : segOutcome (clsOf img) [] ls.st o.segs[j].stype o.segs[j].filesz o.segs[j].offset
+            o.segs[j].streamSize with
+        | none => exact absurd hx hne
+        | some x => cases x <;> rfl
+      show ((segGetData (clsOf img) [] ls { o.segs[j] with data := none }).2.data.getD []).take
+        o.segs[j].filesz.toNat = segFileBytes img j
+      rw [key]; exact hd1
+    · rw [e] at hd0 ⊢
+      refine ⟨s0, s1, s2, s3, s4, s5, s6, s7, s8, s9, ?_⟩
+      intro ls hls
+      have : segGetData (clsOf img) [] ls { o.segs[j] with data := some (d ++ [0]), isLoaded := true } =
+          (ls, { o.segs[j] with data := some (d ++ [0]), isLoaded := true }) := by
+        rw [segGetData_eq_ls]; rfl
+      rw [this]
+      exact hd0
+  · simp only [List.getElem_set_ne hjj]
+    exact hS.segs j' hj'
+
 theorem segResident_none (img : Bytes) (o : Obj) (hS : SegsFrom img o) (j : Nat) (hj : eh img "e_phnum" ≤ j) :
     segResident o j = none := by
   unfold segResident
@@ -388,7 +474,7 @@ theorem segResident_none (img : Bytes) (o : Obj) (hS : SegsFrom img o) (j : Nat)
     first `p_filesz` bytes are the file range of the segment (`C02.segFileBytes`), an allocation covers them -/
 theorem segResident_ready (img : Bytes) (o : Obj) (hL : LoadedFrom img o) (hS : SegsFrom img o) (j : Nat)
     (hj : j < eh img "e_phnum") :
-    ∃ o1 g1, segResident o j = some (o1, g1) ∧ LoadedFrom img o1 ∧
+    ∃ o1 g1, segResident o j = some (o1, g1) ∧ LoadedFrom img o1 ∧ SegsFrom img o1 ∧
       g1.stype.toNat = ph img j "p_type" ∧ g1.filesz.toNat = ph img j "p_filesz" ∧
       (g1.data.getD []).take g1.filesz.toNat = segFileBytes img j ∧
       (∀ a, g1.data = some a → g1.filesz.toNat ≤ a.length) := by
@@ -402,7 +488,8 @@ theorem segResident_ready (img : Bytes) (o : Obj) (hL : LoadedFrom img o) (hS : 
   rw [← hL.cls, ← hL.trans] at hd
   unfold segResident
   rw [List.getElem?_eq_getElem hj']
-  refine ⟨_, _, rfl, ⟨hL.cls, hL.enc, hL.trans, h1.data, hL.nsecs, hL.secs⟩, by rw [h3.stype]; exact f1,
+  refine ⟨_, _, rfl, ⟨hL.cls, hL.enc, hL.trans, h1.data, hL.nsecs, hL.secs⟩, segsFrom_set img o hL hS j hj',
+    by rw [h3.stype]; exact f1,
     by rw [h3.filesz]; exact f6, by rw [h3.filesz]; exact hd, ?_⟩
   intro a ha
   have := h2.len a ha
